@@ -411,8 +411,11 @@ func main() {
 	consulted, perTx := hookFacts()
 	written, panics := undoFacts()
 	locked := scratchFacts()
+	witness := poolHookFact()         // round4.go
+	owned := ownershipFact()          // round4.go
+	cbHashed, cbPlain := txListFacts() // round4.go
 	var sb strings.Builder
-	sb.WriteString("/- GENERATED by go/cmd/gen_c04 from lib/chain/chain_accept.go, lib/utxo/unspent_db.go, lib/utxo/unspent_recc.go — do not edit; not in git.\n")
+	sb.WriteString("/- GENERATED by go/cmd/gen_c04 from lib/chain/chain_accept.go, lib/utxo/*.go, lib/btc/block.go, client/txpool/*.go — do not edit; not in git.\n")
 	for _, n := range notes {
 		sb.WriteString("   " + strings.ReplaceAll(n, "-/", "- /") + "\n")
 	}
@@ -425,13 +428,17 @@ func main() {
 	b("undoWrittenWheneverCollected", "CommitBlockTxs puts undo/<height> in place whenever changes.UndoData != nil, under no other condition", written)
 	b("undoMissingPanics", "UndoBlockTxs stops (panic / return) when undo/<height> cannot be read", panics)
 	b("scratchUnderLock", "SerializeC uses its package-level scratch slices only while holding the package mutex", locked)
+	b("hookComparesWitness", "the function client/txpool installs as chain.TrustedTxChecker compares witness hashes and never answers the constant true outside a branch guarded by such a comparison", witness)
+	b("recordReleasedAfterLastRead", "no function of lib/utxo releases (Memory_Free) a record and then still reads a non-copying view of it", owned)
+	b("txListMarksCoinbaseHashed", "BuildTxListExt marks the outputs of the first transaction WasCoinbase on the hashing path (BuildTxList)", cbHashed)
+	b("txListMarksCoinbasePlain", "BuildTxListExt marks the outputs of the first transaction WasCoinbase on the dohash == false path (the client's disk cache)", cbPlain)
 	sb.WriteString("end GocoinV.Gen.C04Facts\n")
 	out := vlib.Root() + "/lean/GocoinV/Gen/C04Facts.lean"
 	os.Remove(out)
 	if err := os.WriteFile(out, []byte(sb.String()), 0644); err != nil {
 		die(err)
 	}
-	fmt.Println("FACTS 5")
+	fmt.Println("FACTS 9")
 	for _, n := range notes {
 		fmt.Println("  ", n)
 	}
